@@ -12,7 +12,9 @@ def attributeTo (cv : Variant) (W : World) (q : Query) (cur : QResult) : Option 
     ("F3", { cv with f3_fixNotVerified := false }),
     ("F4", { cv with f4_inRangeNotSelfVerified := false }),
     ("F7", { cv with f7_ghPredicateNotValidated := false }),
-    ("F63", { cv with f63_trustExhaustive := false })]
+    ("F63", { cv with f63_trustExhaustive := false }),
+    ("F64", { cv with f64_shortcutSkipsGlobals := false }),
+    ("F65", { cv with f65_globalFileRuleIgnored := false })]
   match flips.find? (fun (_, v) => (runQuery W v q).cls != cur.cls) with
   | some (n, _) => some n
   | none => if (runQuery W Variant.good q).cls != cur.cls then some "F1+" else none
